@@ -788,9 +788,16 @@ class RegionLifter:
             return self.ew(lambda x: fn("log", const(1) + R(x)), args[0])
         if name == "np.mean":
             a = args[0]
-            if isinstance(a, (Vec, list, tuple)) and not isinstance(a, Mat) and len(a):
+            ax = kw.get("axis", args[1] if len(args) > 1 else None)
+            if isinstance(a, Mat) and len(a) and len(a[0]):
+                if ax is None:
+                    return self.total(a) / const(len(a) * len(a[0]))
+                k = self.as_int(ax)
+                tot = self.total(a, k)
+                return Vec(R(x) / const(len(a) if k == 0 else len(a[0])) for x in tot)
+            if isinstance(a, (Vec, list, tuple)) and len(a):
                 return self.total(a) / const(len(a))
-            raise Unsupported("mean of a non-vector")
+            raise Unsupported("mean of a scalar / empty array")
         if name in ("np.sum", "sum"):
             return self.total(args[0], kw.get("axis", args[1] if len(args) > 1 else None))
         if name == "len":
